@@ -601,7 +601,11 @@ def make_c16_oracle(by_id):
         want_tunnel = (w["status"] // 100 == 2 and not w["upgrade"] and w["kind"] == "bin") or (w["upgrade"])
         if g and want_tunnel:
             if not (g.get("in_status") == "4" and g.get("out_status") == "4"):
-                found.append(("no-tunnel", "status %d + %s payload: final statuses in=%s out=%s, tunnel expected" % (
+                # S32: the server spoke first inside the tunnel: its bytes were taken for a response without request, which
+                # re-targets the waiting request direction (REQ_FINALIZE on a new transaction) so that the probe never runs
+                server_first = len(w["after"]) > 0 and not w["upgrade"] and any(
+                    e.name == "response_start" and e.tx >= 1 for c in calls for e in c.events)
+                found.append(("S32" if server_first else "no-tunnel", "status %d + %s payload: final statuses in=%s out=%s, tunnel expected" % (
                     w["status"], w["kind"], g.get("in_status"), g.get("out_status"))))
         # (c) refused CONNECT / 2xx with HTTP payload: the payload requests are parsed exactly once, in order
         if g and not w["upgrade"] and w["kind"] == "http" and not want_tunnel:
